@@ -1,9 +1,19 @@
 import TsrunVerif.Model.Parse
+import TsrunVerif.Gen.ParserLimits
 /-!
 C05 — every source text is accepted or rejected cleanly, in bounded time.
 Property theorems over M-Parse (`Model/Parse.lean`): work of the speculative parse with and
 without the failure memo, recursion depth under the guard, depth of loop-built chains.
 -/
+/-- OBLIGATION over the constants regenerated from the current source (`Gen/ParserLimits.lean`): releasing a
+chain of `MAX_CHAIN` links (about 200 bytes of stack per link in an unoptimised build) fits the stack budget of
+the recursive descent, all five loops that build chains count their links and the three entry points
+(statement, assignment expression, type) open an accounting scope. -/
+theorem TsrunVerif.Gen.limits_sane :
+    TsrunVerif.Gen.maxChain * 192 ≤ TsrunVerif.Gen.parserStackBudget ∧ 0 < TsrunVerif.Gen.maxChain ∧
+    TsrunVerif.Gen.parserStackBudget ≤ 1024 * 1024 ∧ TsrunVerif.Gen.compilerStackBudget ≤ 1024 * 1024 ∧
+    TsrunVerif.Gen.chainLinkSites = 5 ∧ TsrunVerif.Gen.chainScopeSites = 3 := by decide
+
 namespace TsrunVerif.Parse
 
 mutual
@@ -139,6 +149,113 @@ theorem leftDeep_depth (n : Nat) : depth (leftDeep n) = n + 1 := by
   | succ n ih =>
     simp only [leftDeep, depth, depths, ih]
     omega
+
+/-! ### loop-built chains inside nested constructs -/
+
+mutual
+/-- accounting invariant and bound: if the parser's accounting lets a tree through from state
+`(l, n)` and ends in `(l', n')`, then the counters only grow, the depth the loops added is covered
+by what was counted (`tdepth t + l ≤ rdepth t + l' + n'`), and the tree is at most `MAX_CHAIN`
+deeper than the parser's own recursion. -/
+theorem scan_inv (M : Nat) : ∀ (t : Tr) (l n l' n' : Nat), scan M t (l, n) = some (l', n') →
+    l ≤ l' ∧ n ≤ n' ∧ tdepth t + l ≤ rdepth t + l' + n' ∧ tdepth t ≤ rdepth t + M
+  | .leaf, l, n, l', n', h => by
+      simp only [scan, Option.some.injEq, Prod.mk.injEq] at h
+      obtain ⟨h1, h2⟩ := h; subst h1; subst h2
+      simp [tdepth, rdepth]
+  | .wrap cs, l, n, l', n', h => by
+      simp only [scan] at h
+      obtain ⟨h1, h2, h3, h4⟩ := scopes_inv M cs l n l' n' h
+      subst h1
+      simp only [tdepth, rdepth]
+      omega
+  | .chain hd ops, l, n, l', n', h => by
+      simp only [scan] at h
+      cases hh : scan M hd (l, n) with
+      | none => simp [hh] at h
+      | some st1 =>
+        obtain ⟨l1, n1⟩ := st1
+        simp only [hh] at h
+        obtain ⟨a1, a2, a3, a4⟩ := scan_inv M hd l n l1 n1 hh
+        obtain ⟨b1, b2, b3, b4⟩ := links_inv M ops l1 n1 l' n' (tdepth hd) (rdepth hd) l h a3 a1 a4
+        simp only [tdepth, rdepth]
+        omega
+theorem scopes_inv (M : Nat) : ∀ (cs : List Tr) (l n l' n' : Nat), scanScopes M cs (l, n) = some (l', n') →
+    l' = l ∧ n ≤ n' ∧ tdepths cs ≤ rdepths cs + n' ∧ tdepths cs ≤ rdepths cs + M
+  | [], l, n, l', n', h => by
+      simp only [scanScopes, Option.some.injEq, Prod.mk.injEq] at h
+      obtain ⟨h1, h2⟩ := h; subst h1; subst h2
+      simp [tdepths, rdepths]
+  | c :: cs, l, n, l', n', h => by
+      simp only [scanScopes] at h
+      cases hc : scan M c (0, 0) with
+      | none => simp [hc] at h
+      | some tot =>
+        obtain ⟨lc, nc⟩ := tot
+        simp only [hc] at h
+        obtain ⟨_, _, a3, a4⟩ := scan_inv M c 0 0 lc nc hc
+        obtain ⟨b1, b2, b3, b4⟩ := scopes_inv M cs l (max n (lc + nc)) l' n' h
+        simp only [tdepths, rdepths]
+        omega
+theorem links_inv (M : Nat) : ∀ (ops : List Tr) (l n l' n' d R l0 : Nat), scanLinks M ops (l, n) = some (l', n') →
+    d + l0 ≤ R + l + n → l0 ≤ l → d ≤ R + M →
+    l ≤ l' ∧ n ≤ n' ∧ spine d ops + l0 ≤ max R (1 + rdepths ops) + l' + n' ∧
+      spine d ops ≤ max R (1 + rdepths ops) + M
+  | [], l, n, l', n', d, R, l0, h, h1, h2, h3 => by
+      simp only [scanLinks, Option.some.injEq, Prod.mk.injEq] at h
+      obtain ⟨e1, e2⟩ := h; subst e1; subst e2
+      simp only [spine, rdepths]
+      omega
+  | o :: os, l, n, l', n', d, R, l0, h, h1, h2, h3 => by
+      simp only [scanLinks] at h
+      by_cases hm : l + 1 + n > M
+      · simp [hm] at h
+      · simp only [hm, if_false] at h
+        cases ho : scan M o (l + 1, n) with
+        | none => simp [ho] at h
+        | some st' =>
+          obtain ⟨l2, n2⟩ := st'
+          simp only [ho] at h
+          obtain ⟨a1, a2, a3, a4⟩ := scan_inv M o (l + 1) n l2 n2 ho
+          obtain ⟨b1, b2, b3, b4⟩ := links_inv M os l2 n2 l' n' (1 + max d (tdepth o)) (max R (1 + rdepth o)) l0 h
+            (by omega) (by omega) (by omega)
+          simp only [spine, rdepths]
+          omega
+end
+
+/-- **Chains cannot stack through nested constructs**: whatever the parser's accounting accepts is
+at most `MAX_CHAIN` levels deeper than the parser's own (guarded) recursion - for every tree,
+however the chains are distributed over heads, operands and nested constructs. -/
+theorem chain_accounting_bounds_depth (M : Nat) (t : Tr) (st : Nat × Nat)
+    (h : scan M t (0, 0) = some st) : tdepth t ≤ rdepth t + M := by
+  obtain ⟨l', n'⟩ := st
+  exact (scan_inv M t 0 0 l' n' h).2.2.2
+
+/-- the family the per-loop limit let through: `d` nested groups, each the head of a chain of `k`
+links, have depth `d * (k + 1) + 1` with recursion depth `d + 1` only -/
+theorem nestedChains_tdepth (k : Nat) : ∀ d, tdepth (nestedChains k d) = d * (k + 1) + 1
+  | 0 => by simp [nestedChains, tdepth]
+  | d + 1 => by
+      have ih := nestedChains_tdepth k d
+      have hs : ∀ (m : Nat) (x : Nat), 1 ≤ x → spine x (List.replicate m Tr.leaf) = x + m := by
+        intro m
+        induction m with
+        | zero => intro x _; simp [spine]
+        | succ m ihm =>
+          intro x hx
+          simp only [List.replicate_succ, spine, tdepth]
+          rw [ihm (1 + max x 1) (by omega)]
+          omega
+      simp only [nestedChains, tdepth, tdepths, ih]
+      rw [hs k _ (by omega)]
+      simp [Nat.succ_mul]
+      omega
+
+-- non-vacuity: 4 groups x 9990 links were accepted by a per-loop limit of 10000; the accounting refuses them,
+-- and accepts what stays within the limit
+example : (scan 40 (nestedChains 10 3) (0, 0)).isSome = true := by decide
+example : (scan 40 (nestedChains 10 5) (0, 0)).isSome = false := by decide
+example : tdepth (nestedChains 9990 4) = 39965 := by rw [nestedChains_tdepth]
 
 -- non-vacuity / concrete values
 example : costNaive (chain 24) = 33554431 := by decide
